@@ -118,7 +118,7 @@ def build_traces(path, tier, seed):
         if hist == 0:
             o = eqsig.AccSignal(a, dt, response_times=np.array(periods))
             if i % 2:
-                o.gen_response_spectrum(xi=xi, min_dt_ratio=q)
+                o.gen_response_spectrum(xi=xi, min_dt_ratio=[q, float(q), np.int64(q)][int(rng.integers(3))])
             else:
                 o.generate_response_spectrum(response_times=[np.array(periods), list(periods)][i % 2], xi=xi, min_dt_ratio=q)
         else:
